@@ -38,8 +38,15 @@ class _RabbitConsumer(ConsumerT):
         self._consumer_tag: str | None = None
         self.__is_paused: bool = False
         self.__is_consuming: bool = False
+        # key of the message which was returned by the latest `consume` call
+        self._last_consumed: RoutingKeyT | None = None
 
     async def consume(self) -> tuple[RoutingKeyT, str, ParametersT]:
+        msg = await self.__consume()
+        self._last_consumed = msg[0]
+        return msg
+
+    async def __consume(self) -> tuple[RoutingKeyT, str, ParametersT]:
         # fast-path without task creation
         if not self.queue.empty():
             return self.queue.get_nowait()
@@ -57,8 +64,11 @@ class _RabbitConsumer(ConsumerT):
                 )
             except asyncio.CancelledError:
                 # if we got cancellation while waiting on our tasks - cancel the tasks
-                get_task.cancel()
                 server_side_cancel_wait_task.cancel()
+                if not get_task.cancel() and get_task.exception() is None:
+                    # the message has been taken from the local queue already:
+                    # put it back, otherwise nobody would ever settle it
+                    self.queue.put_nowait(get_task.result())
                 raise
 
             # cancel unfinished tasks
@@ -129,6 +139,13 @@ class _RabbitConsumer(ConsumerT):
                 extra={"tag": self._consumer_tag},
             )
         rejects = []
+        if self._last_consumed is not None:
+            # the caller of `consume` could have been cancelled before it has received the message
+            # (if the message is settled already, its delivery tag isn't known anymore)
+            tag = self.broker._id_to_delivery_tag.pop(self._last_consumed.id_, None)
+            if tag is not None:
+                rejects.append(self.broker._channel.basic_reject(tag))
+            self._last_consumed = None
         while self.queue.qsize() > 0:
             key, _, _ = self.queue.get_nowait()
             tag = self.broker._id_to_delivery_tag.pop(key.id_, None)
